@@ -497,6 +497,7 @@ def r_keep(prog, tier):
         pars = [e for e in evs if e.kind == 'PAR']
         for d in dets:
             ok = False
+            narrow_guard = None
             detail = 'nothing guarantees that `%s` keeps a child: no replenishing attach, no discard of the ' \
                      'parent, no `len(...children) > 1` guard evaluated at move time' % unparse(d.p)
             praw = path(d.p)
@@ -530,6 +531,11 @@ def r_keep(prog, tier):
                             break
                     if fa[0] == 'opaque' and fa[2] is False and _all_punct_over(a.ast, cands):
                         sets = ('PUNCT', 'PAIRPUNCT')
+                        guard_set = 'PAIRPUNCT' if 'PAIRPUNCT' in unparse(a.ast) else 'PUNCT'
+                        moved_pair_only = all(punct_filtered(f, o.x, o.node, ('PAIRPUNCT',)) for o in dets)
+                        if guard_set == 'PAIRPUNCT' and not moved_pair_only and all(punct_filtered(f, o.x, o.node, sets) for o in dets):
+                            narrow_guard = unparse(a.ast)
+                            continue        # the guard only sees paired marks, the function also moves commas etc.
                         if all(punct_filtered(f, o.x, o.node, sets) for o in dets):
                             ok = True
                             detail = '(c) `not %s`: the parent has a child that is not punctuation, and ' \
@@ -581,7 +587,11 @@ def r_keep(prog, tier):
                                     (prog.callee(c_, f) is not None and not prog.pure_call(c_, f))) for c_ in ast.walk(a.ast))]
                 if opaque_guard and not mention:
                     mention = opaque_guard
-                if wrong_node:
+                if narrow_guard:
+                    verdict = False
+                    detail = 'the guard `not %s` only looks for a child outside trees.PAIRPUNCT, but every token of trees.PUNCT is ' \
+                             'moved: a constituent of commas / full stops only is emptied' % narrow_guard[:70]
+                elif wrong_node:
                     verdict = False
                     detail = 'the guard `%s` counts the children of `%s`, but the node is taken out of `%s`: the constituent ' \
                              'it leaves can end up without children' % (wrong_node[1][:60], wrong_node[0], pres or praw)
@@ -1011,6 +1021,40 @@ def effects(prog, f, _memo=None, _stack=None):
             res.append(('data', d.keys, is_fresh, unparse(d.ast), f.fq, f.cfg.nodes[d.node].lineno))
         else:
             res.append(('dataall', None, is_fresh, unparse(d.ast), f.fq, f.cfg.nodes[d.node].lineno))
+    # any other attribute stored on a node that is not created here (a cache hung on the tree, a mark, ...)
+    for n in walk_own(f.node):
+        tg = []
+        if isinstance(n, ast.Assign):
+            for t in n.targets:
+                tg.extend(t.elts if isinstance(t, (ast.Tuple, ast.List)) else [t])
+        elif isinstance(n, (ast.AugAssign, ast.AnnAssign)):
+            tg = [n.target]
+        for t in tg:
+            if isinstance(t, ast.Attribute) and t.attr not in ('children', 'parent', 'data'):
+                r = root_name(t)
+                if r is None or r == 'self' or r in f.module.aliases or r in f.module.imports:
+                    continue
+                if r not in f.locals:
+                    continue            # module / function attribute: process state, judged by R-STATE
+                xp = path(t.value)
+                if (xp in fresh) or (r in fresh):
+                    continue
+                if isinstance(t.value, ast.Name):
+                    dd = name_defs(f, r)
+                    def _built_here(v):
+                        if not isinstance(v, ast.Call):
+                            return False
+                        fn = v.func
+                        if isinstance(fn, ast.Name) and fn.id in f.module.classes and fn.id not in f.locals:
+                            return True
+                        if isinstance(fn, ast.Attribute) and isinstance(fn.value, ast.Name) and fn.value.id in f.module.aliases \
+                                and fn.attr in prog.modules[f.module.aliases[fn.value.id]].classes:
+                            return True
+                        c = prog.callee(v, f)
+                        return c is not None and c[1] in ('parse_label',)
+                    if dd and all(isinstance(v, ast.AST) and _built_here(v) for (_, v) in dd):
+                        continue        # an object built here (a new node, a parsed label)
+                res.append(('attr', None, False, unparse(n), f.fq, n.lineno))
     for e in link_events(prog, f):
         if e.kind in ('ATT', 'DET', 'PAR', 'CLR', 'PERM', 'OTHER'):
             tgt = e.__dict__.get('q') or e.__dict__.get('p') or e.__dict__.get('x')
@@ -1046,7 +1090,7 @@ def r_frame(prog, tier):
         exist_ok, fresh_ok = FRAME[nm]
         seen = set()
         for (kind, keys, is_fresh, text, where, line) in effects(prog, f, memo):
-            if kind == 'link':
+            if kind in ('link', 'attr'):
                 continue
             if kind == 'dataall':
                 obs.append(Ob('R-FRAME', f.fq, 'node content is written field by field', False,
@@ -1262,6 +1306,20 @@ def r_punctsel(prog, tier):
         dets = [e for e in evs if e.kind == 'DET']
         if not dets:
             raise Unrecognised('%s has no detach event' % f.fq)
+        # every candidate is looked at: the loop over the candidates is never left early
+        for d in dets[:1]:
+            lp = cfg.nodes[d.node].loops
+            if lp:
+                brk = [n for n in cfg.eval_nodes() if n.kind == 'stmt' and isinstance(n.ast, (ast.Break, ast.Return))
+                       and n.loops and n.loops[-1] == lp[0] and len(n.loops) == 1]
+                for b in brk:
+                    conds = ' and '.join(('' if a.pol else 'not ') + unparse(a.ast) for a in cfg.assumes_at(b.id) if lp[0] in a.loops)
+                    obs.append(Ob('R-PUNCTSEL', f.fq, 'the loop over the punctuation tokens looks at every token', False,
+                                  '`%s` under `%s` ends the loop at the first such token: all later punctuation stays where it '
+                                  'was' % (unparse(b.ast), conds[:80]), construct='sel-break:' + conds[:60], line=b.lineno))
+                if not brk:
+                    obs.append(Ob('R-PUNCTSEL', f.fq, 'the loop over the punctuation tokens looks at every token', True,
+                                  'no break / return inside it', construct='sel-nobreak', line=f.node.lineno, nontrivial=False))
         for d in dets:
             conds = []
             for a in cfg.assumes_at(d.node):
